@@ -102,6 +102,18 @@ V("c08-rw-split-statement", "rewrite", "C08", P + "ellipse.py",
   "            ratio = value / self.area\n            scale = np.sqrt(ratio)\n            self._rescale(scale)")
 
 # ------------------------------------------------------------------------------------------ C15
+V("c15-rw-convex-shape0", "rewrite", "C15", P + "convex_polyhedron.py",
+  "        if not len(hull.vertices) == len(self._vertices):", "        if hull.vertices.size != self._vertices.shape[0]:")
+V("c15-rw-convex-setdiff", "rewrite", "C15", P + "convex_polyhedron.py",
+  "        if not len(hull.vertices) == len(self._vertices):", "        if set(range(len(self._vertices))) - set(hull.vertices):")
+V("c15-convex-hull-against-itself", "fault", "C15", P + "convex_polyhedron.py",
+  "        if not len(hull.vertices) == len(self._vertices):", "        if set(range(len(hull.vertices))) - set(hull.vertices):", rule="CT-2")
+V("c15-rw-duplicates-unique-len", "rewrite", "C15", P + "polygon.py",
+  "        _, indices = np.unique(vertices, axis=0, return_index=True)\n        if len(indices) != vertices.shape[0]:",
+  "        if len(np.unique(vertices, axis=0)) != len(vertices):")
+V("c15-duplicates-npdiff", "fault", "C15", P + "polygon.py",
+  "        _, indices = np.unique(vertices, axis=0, return_index=True)\n        if len(indices) != vertices.shape[0]:",
+  "        if not np.diff(vertices, axis=0).any(axis=1).all():", rule="CT-2")
 V("c15-asarray-center", "fault", "C15", P + "sphere.py", "self._centroid = np.array(value)", "self._centroid = np.asarray(value)", rule="CT-1")
 V("c15-store-vertices-asarray", "fault", "C15", P + "polyhedron.py",
   "self._vertices = np.array(vertices, dtype=np.float64)", "self._vertices = np.asarray(vertices, dtype=np.float64)", rule="CT-1")
@@ -414,6 +426,10 @@ V("c18-rename-entry", "fault", "C18", D_ + "platonic.json", '"Cube": {', '"Hexah
 
 # ------------------------------------------------------------------------------------------ C20
 IO = "coxeter/io.py"
+V("c20-helper-short-repr", "fault", "C20", IO, "def to_obj(shape, filename):", "def _num(x):\n    text = f\"{x:.12g}\"\n    return text if (\".\" in text or \"e\" in text) else text + \".0\"\n\n\ndef to_obj(shape, filename):",
+  rule="PREC-0", more=[("content += f\"v {' '.join([str(coord) for coord in v])}\\n\"", "content += f\"v {' '.join([_num(coord) for coord in v])}\\n\"")])
+V("c20-rw-helper-float-literal", "rewrite", "C20", IO, "def to_obj(shape, filename):", "def _num(x):\n    text = repr(float(x))\n    return text if (\".\" in text or \"e\" in text or \"n\" in text) else text + \".0\"\n\n\ndef to_obj(shape, filename):",
+  more=[("content += f\"v {' '.join([str(coord) for coord in v])}\\n\"", "content += f\"v {' '.join([_num(coord) for coord in v])}\\n\"")])
 V("c20-obj-zero-based", "fault", "C20", IO, "str(v_index+1) for v_index in f", "str(v_index) for v_index in f", rule="IDX-1")
 V("c20-ply-one-based", "fault", "C20", IO, "str(int(v_index)) for v_index in f", "str(int(v_index) + 1) for v_index in f", rule="IDX-1")
 V("c20-ply-count-swapped", "fault", "C20", IO, 'f"element vertex {len(shape.vertices)}\\n"', 'f"element vertex {len(shape.faces)}\\n"', rule="CNT-1")
